@@ -656,6 +656,8 @@ package checkers
 //@   nosafety node shapes are the subject of the C01 sweep
 //@   assigns mapof(c.visited)
 //@   abstracts result as chainLen(stmt)
+//@   loop 1 invariant @still-a-tree-node tnode(stmt)
+//@   loop 1 decreases astDepth(stmt)
 
 //@ func (*ifElseChainChecker).warn
 //@   prop C14
@@ -726,6 +728,8 @@ package checkers
 //@   decreases 2 * rxDepth(alt)
 //@ func (*regexpSimplifyChecker).walkConcat
 //@   decreases 2 * rxDepth(concat)
+//@   loop 1 decreases len(concat.Args) - i
+//@   loop 2 invariant @at-least-one-pair n >= 1
 //@ func (*sqlQueryChecker).typeIsRowsLike
 //@   decreases typeDepth(typ)
 //@ func (*unnamedResultChecker).typeName
@@ -740,3 +744,10 @@ package checkers
 //@   nosafety node shapes are the subject of the C01 sweep
 //@   requires x != nil && typeIs(x.X, "*ast.StarExpr")
 //@   ensures @unary-operands-keep-their-parentheses (typeIs(cast(x.X, "*ast.StarExpr").X, "*ast.StarExpr") || typeIs(cast(x.X, "*ast.StarExpr").X, "*ast.UnaryExpr")) ==> typeIs(result, "*ast.ParenExpr")
+
+// loops that are neither ranges nor counting loops towards a fixed bound name their measure
+//@ func (*typeAssertChainChecker).countTypeAssertions
+//@   loop 1 invariant @still-a-tree-node tnode(stmt)
+//@   loop 1 decreases astDepth(stmt)
+//@ func (*badRegexpChecker).checkCharClassDups
+//@   loop 2 decreases len(ranges) - i
